@@ -14,6 +14,7 @@ Known findings F11a..F11k are recognised only when the implementation behaves
 exactly like the bug-compatible model on the programs involved and the precise
 trigger holds on the input; anything else is a violation."""
 import json
+import os
 import random
 
 import sympy
@@ -27,6 +28,23 @@ GRID = {1: sympy.Rational(1, 3), 2: sympy.Rational(2, 7), 3: sympy.Rational(-3, 
 NSYM = 4            # symbols s1..s4 occur in diagrams; s5, s6 only in substitutions
 COEFFS = [(1, 1), (1, 1), (2, 1), (3, 1), (-1, 1), (1, 2), (-1, 2), (1, 4), (3, 4), (-3, 2)]
 
+# One switch per finding that has an upstream repair (notes/patches/F11x.diff): False = /repo
+# is the pinned code (the finding is recognised as KNOWN-FINDING), True = /repo carries the fix
+# (the model runs the repaired behaviour, the finding is no longer excused: its former minimal
+# input is an ordinary regression case).  Override: VERIF_C14_FIXED="b,c,d,h,i,j".
+FIXED = {"F11b": True, "F11c": True, "F11d": True, "F11h": True, "F11i": True, "F11j": True}   # repaired upstream: eb5ad40 401b874 8396d85 1c75e43 2ed8bd1 d680073
+if os.environ.get("VERIF_C14_FIXED") is not None:
+    _on = {x.strip().lower() for x in os.environ["VERIF_C14_FIXED"].split(",") if x.strip()}
+    assert _on <= {"b", "c", "d", "h", "i", "j"}, _on
+    FIXED = {k: k[-1] in _on for k in FIXED}
+SWITCHES = [1 if FIXED["F11" + x] else 0 for x in "bcdhij"]    # wire order of ParamProg.dec_fixes
+
+
+def run_model(programs, parallel=True):
+    wrapped = [[SWITCHES, p] for p in programs]
+    return (common.run_model_parallel if parallel else common.run_model)("param", wrapped)
+
+
 FINDINGS = {
     "F11a": "a rotation whose phase became a closed sympy number cannot be evaluated: "
             "Rx(phi).subs(phi, 1/4).eval() raises TypeError (numpy.sin of a sympy Float)",
@@ -34,7 +52,8 @@ FINDINGS = {
             "False; a pure circuit.Box with data comes back with is_mixed=True",
     "F11c": "ClassicalGate.subs drops the dagger flag",
     "F11d": "Tensor.subs replaces every non-sympy entry by the variable (ValueError for a list of pairs)",
-    "F11e": "CQMap.subs raises TypeError (Tensor.map builds a Tensor with CQ types)",
+    "F11e": "CQMap.subs raises TypeError unless domain and codomain are empty (Tensor.map builds a "
+            "Tensor with CQ types)",
     "F11f": "ZX spiders and scalars cannot be lambdified: cat.Box.lambdify passes _dagger/data "
             "keywords their constructors do not take (TypeError)",
     "F11g": "ClassicalGate.lambdify / Tensor.lambdify raise TypeError (sympy.lambdify on a numpy "
@@ -42,7 +61,8 @@ FINDINGS = {
     "F11h": "ClassicalGate.subs / lambdify raise AttributeError when data is None: no circuit "
             "containing Bits(...) can be substituted",
     "F11i": "Sum.free_symbols is {} whatever the terms contain",
-    "F11j": "Sum.lambdify returns the sum unchanged",
+    "F11j": "Sum.lambdify returns the sum unchanged (raises AttributeError once Sum.free_symbols alone "
+            "is repaired: it is the inherited cat.Box.lambdify)",
     "F11k": "lambdify of a box with list data raises NameError unless every symbol of the data is "
             "bound (lists are printed without their free symbols in scope)",
 }
@@ -99,13 +119,17 @@ class Gen:
     def coeff(self):
         return self.rng.choice(COEFFS)
 
-    def expr(self, syms=None, p_number=0.15):
-        """A sympy-typed expression of the fragment, or (sometimes) a Python number."""
+    def expr(self, syms=None, p_number=0.15, nonneg=False):
+        """A sympy-typed expression of the fragment, or (sometimes) a Python number.
+        nonneg: numbers are >= 0 (entries of numpy arrays that sympy.lambdify will
+        misread as array shapes: a negative one would turn its TypeError into a ValueError)."""
         r = self.rng
         syms = syms or list(range(1, NSYM + 1))
         k = r.random()
         if k < p_number:
             c = self.coeff()
+            if nonneg:
+                c = (abs(c[0]), c[1])
             if r.random() < 0.5:
                 return num(c[0], c[1], flag=0)
             return num(c[0], c[1], flag=1)
@@ -169,6 +193,8 @@ class Gen:
         if not evaluable_only:
             opts += ["generic", "bits", "copy"]
         k = r.choice(opts)
+        if k == "bits" and r.random() < 0.7:      # every subs of a circuit with Bits is refused (F11h)
+            k = "ket"
         if k == "scalar":
             kind = r.choice([pi.KQSCALAR, pi.KQSCALAR, pi.KMIXEDSCALAR, pi.KSQRT])
             mixed = {pi.KQSCALAR: r.choice([0, 0, 1]), pi.KMIXEDSCALAR: 1, pi.KSQRT: 0}[kind]
@@ -196,7 +222,7 @@ class Gen:
             return [pi.KGEN, 11, [2], [], 0, 1, []], r.choice(qpos)
         if k == "classical" and bpos:
             dag = r.choice([0, 0, 1])
-            data = [1, [self.expr(p_number=0.4) for _ in range(4)]]
+            data = [1, [self.expr(p_number=0.4, nonneg=True) for _ in range(4)]]
             return [pi.KCLASSICAL, 100 + r.randint(0, 5), [1], [1], dag, 0, data], r.choice(bpos)
         if k == "generic":
             w = r.choice([0, 1]) if n else 0
@@ -377,7 +403,7 @@ class Checker:
         todo = [p for p in self.programs if self.impl[common.to_sexp(p)] is None]
         for p in todo:
             self.impl[common.to_sexp(p)] = pi.observe(p)
-        mod = common.run_model_parallel("param", todo)
+        mod = run_model(todo)
         for p, m in zip(todo, mod):
             key = common.to_sexp(p)
             self.model[key] = m
@@ -397,7 +423,7 @@ class Checker:
     def fail(self, what, fid, trigger, programs, extra=None):
         """An oracle failed.  Known finding iff listed id, trigger holds and the
         implementation equals the bug-compatible model on the programs involved."""
-        if fid and trigger and self.agree(*programs):
+        if fid and trigger and not FIXED.get(fid, False) and self.agree(*programs):
             self.rep.known_finding(fid, FINDINGS[fid])
             self.rep.count("known:" + fid)
             return
@@ -473,6 +499,7 @@ def run(tier, seed):
     import param_impl as pi
     rep = Report("C14", tier, seed)
     proof_ok = common.proof_stage(rep, "C14")
+    rep.extra["repair_switches"] = dict(FIXED)
     rng = random.Random(seed)
     g = Gen(rng, pi)
     ck = Checker(rep, pi, tier)
@@ -499,7 +526,7 @@ def run(tier, seed):
     ]
     for cls, lit, ev in corpus:
         cases.append({"cls": cls, "lit": lit, "evaluable": ev, "tag": "corpus"})
-    n = 60 if quick else 1200
+    n = 60 if quick else 400
     for _ in range(n):
         cases.append({"cls": pi.CCIRC, "lit": g.circuit(True, max_q=2), "evaluable": True, "tag": "circuit-eval"})
     for _ in range(n):
@@ -577,23 +604,34 @@ def run(tier, seed):
     for _ in range(30 if quick else 500):
         size = rng.choice([1, 2, 4])
         dom = {1: [], 2: [2], 4: [2, 2]}[size]
-        tens.append([pi.TENS, dom, [], [g.expr(p_number=0.4) for _ in range(size)]])
+        tens.append([pi.TENS, dom, [], [g.expr(p_number=0.4, nonneg=True) for _ in range(size)]])
     tens.append([pi.TENS, [2, 2], [], [s1, num(1), num(0), s2]])
     tens.append([pi.TENS, [2], [], [s1, symx(2)]])
     for t in tens:
         ck.add(t)
         ck.add([pi.SUBS, t, [0, 1, num(3)]])
         ck.add([pi.SUBS, t, [1, [[1, num(3)], [2, s1]]]])
-        ck.add([pi.LAMBDIFY, t, [1, 2], [num(1), num(2)]])
-    cq = [pi.CQSUBS, [0, 1, num(1)], [], [], [s1]]
-    ck.add(cq)
+        if len(t[3]) == 4:      # other shapes: the error class depends on the numbers
+            ck.add([pi.LAMBDIFY, t, [1, 2], [num(1), num(2)]])
+    cqs = [[pi.CQSUBS, [0, 1, num(1)], [2], [], [s1, num(0), num(0), s2]],
+           [pi.CQSUBS, [0, 1, num(1)], [], [2], [s1, s2, s2, s1]],
+           [pi.CQSUBS, [1, [[1, num(1)]]], [2], [], [s1, num(0), num(0), s2]],
+           [pi.CQSUBS, [1, [[1, num(1)]]], [2], [], [num(1), num(0), num(0), num(1)]],
+           [pi.CQSUBS, [0, 1, num(1)], [], [], [s1]],        # empty types: behaves like Tensor.subs
+           [pi.CQSUBS, [0, 1, num(1)], [], [], [num(3)]]]
+    for cq in cqs:
+        ck.add(cq)
     # malformed stream
     n_mal = max(20, len(cases) // 7)
     for _ in range(n_mal):
         c = rng.choice(cases)
         lit = [x if not isinstance(x, list) else list(x) for x in c["lit"]]
         k = rng.random()
-        if k < 0.3 and lit[5]:
+        if c["cls"] == pi.CCAT and k < 0.6:
+            # arrows have no offsets and one-object types: only a wrong codomain is expressible
+            lit[3] = [lit[3][0] % 3 + 1]
+            ck.add(lit)
+        elif k < 0.3 and lit[5]:
             i = rng.randrange(len(lit[5]))
             lit[5][i] = lit[5][i] + rng.choice([-1, 1, 5])
             ck.add(lit)
@@ -645,10 +683,16 @@ def run(tier, seed):
             check_params(ck, pi, lit, ps, f)
             # free symbols after substituting closed values
             if all(not expr_syms(v) for _, v in form_pairs(f)):
+                # (terms may cancel, so fewer symbols may remain; none may appear or survive)
                 got = ck.impl[common.to_sexp([pi.FREE, ps])]
-                want = sorted(free - set(fvars))
-                if got != [0, [3, want]]:
+                left = set()
+                for b2 in out[1][3]:
+                    left |= box_syms(b2)
+                if got[0] != 0 or not set(got[1][1]) <= free - set(fvars) or set(got[1][1]) != left:
                     ck.fail("free symbols after substituting numbers are not the remaining ones",
+                            None, False, [[pi.FREE, ps]])
+                if kind == "closing" and got != [0, [3, []]]:
+                    ck.fail("free symbols remain after substituting all of them by numbers",
                             None, False, [[pi.FREE, ps]])
             if kind == "closing" and c["evaluable"]:
                 pe = [pi.EVALSTATUS, ps]
@@ -699,8 +743,28 @@ def run(tier, seed):
             ck.fail("free symbols of a sum are not those of its terms", "F11i", bool(want), [pf])
         pl = [pi.LAMBDIFY, s, [1, 2], [num(1, 2), num(1, 4)]]
         ps = [pi.SUBS, s, [1, [[1, num(1, 2)], [2, num(1, 4)]]]]
-        if pi.strip_flags(ck.impl[common.to_sexp(pl)]) != pi.strip_flags(ck.impl[common.to_sexp(ps)]):
-            ck.fail("lambdify of a sum differs from subs", "F11j", bool(want & {1, 2}), [pl, ps])
+        all_boxes = [None] * 4 + [[b for t in s[4] for b in t[2]]]
+        lo = ck.impl[common.to_sexp(pl)]
+        if lo[0] != 0:
+            # only possible once Sum.lambdify maps over the terms: a term refused
+            trigs = lambdify_triggers(pi, all_boxes, [1, 2])
+            fid = {9: "F11h", 10: "F11k"}.get(lo[1])
+            if lo[1] == 5:
+                fid = "F11f" if "F11f" in trigs else "F11g"
+            if FIXED["F11i"] and not FIXED["F11j"] and lo == [1, 9] and want & {1, 2}:
+                # Sum.free_symbols repaired, Sum.lambdify still the inherited cat.Box.lambdify:
+                # its guard now passes and sympy.lambdify is handed data None
+                ck.fail("lambdify refused a well-typed sum", "F11j", True, [pl])
+            else:
+                ck.fail("lambdify refused a well-typed sum", fid, fid in trigs, [pl])
+        elif pi.strip_flags(lo) != pi.strip_flags(ck.impl[common.to_sexp(ps)]):
+            if want & {1, 2} and not FIXED["F11j"]:
+                ck.fail("lambdify of a sum differs from subs", "F11j", True, [pl, ps])
+            else:
+                # no bound symbol occurs: lambdify is legitimately the identity, and subs may
+                # only differ by the flags it loses (F11b / F11c) on boxes it rebuilds unguarded
+                fid, trig = flag_finding(pi, all_boxes)
+                ck.fail("lambdify of a sum differs from subs", fid, trig, [pl, ps])
         rep.case(["sum", s], nontrivial=True)
     # tensors: Tensor.subs == entrywise sympy substitution
     for t in tens:
@@ -713,15 +777,22 @@ def run(tier, seed):
                 trig = any(e[0] == 0 for e in t[3])
                 ck.fail("Tensor.subs differs from entrywise substitution", "F11d", trig, [ps])
         pl = [pi.LAMBDIFY, t, [1, 2], [num(1), num(2)]]
-        if ck.impl[common.to_sexp(pl)][0] != 0:
+        if len(t[3]) == 4 and ck.impl[common.to_sexp(pl)][0] != 0:
             ck.fail("Tensor.lambdify refused", "F11g", ck.impl[common.to_sexp(pl)] == [1, 5], [pl])
         rep.case(["tensor", t], nontrivial=True)
-    if ck.impl[common.to_sexp(cq)][0] != 0:
-        ck.fail("CQMap.subs refused", "F11e", ck.impl[common.to_sexp(cq)] == [1, 5], [cq])
+    for cq in cqs:
+        out = ck.impl[common.to_sexp(cq)]
+        want = [pi.enc_expr(sympy_apply(pi.build_expr(e), cq[1], pi))[1] for e in cq[4]]
+        if out[0] != 0:
+            ck.fail("CQMap.subs refused", "F11e", bool(cq[2] or cq[3]) and out[1] in (4, 5), [cq])
+        elif [e[1] for e in out[1][3]] != want:
+            ck.fail("CQMap.subs differs from entrywise substitution", "F11d",
+                    any(e[0] == 0 for e in cq[4]), [cq])
+        rep.case(["cqmap", cq], nontrivial=True)
 
     # ---------------------------------------------------------------- evaluation oracle
     n_eval = 0
-    budget = 70 if quick else 1500
+    budget = 70 if quick else 500
     for c in cases:
         if not c["evaluable"] or n_eval >= budget:
             continue
@@ -755,6 +826,15 @@ def run(tier, seed):
             "lambdify with duplicate symbols (SyntaxError) is outside the model",
         ],
         checker_cmd="make -C coq Props/C14.vo  (coqc 8.16.1, Print Assumptions parsed)")
+
+
+def flag_finding(pi, lit):
+    """Which flag finding can explain a wrong evaluation after subs / lambdify."""
+    if any(b[0] == pi.KQSCALAR and b[5] == 1 for b in lit[4]):
+        return "F11b", True      # a mixed scalar became pure: s instead of |s|^2 ... or vice versa
+    if any(b[0] == pi.KCLASSICAL and b[4] == 1 for b in lit[4]):
+        return "F11c", True      # a daggered classical gate lost its flag: array no longer transposed
+    return None, False
 
 
 def eval_oracle(ck, pi, rep, c):
@@ -801,7 +881,7 @@ def eval_oracle(ck, pi, rep, c):
             key = common.to_sexp(pe)
             if key not in ck.impl:
                 ck.impl[key] = pi.observe(pe)
-                ck.model[key] = common.run_model("param", [pe])[0]
+                ck.model[key] = run_model([pe], parallel=False)[0]
             ck.fail("d.subs(s).eval() raises TypeError", "F11a", trig, [pe, ps])
             rep.count("eval-oracle:subs-eval-typeerror")
             continue
@@ -812,10 +892,9 @@ def eval_oracle(ck, pi, rep, c):
             continue
         rep.count("eval-oracle:compared")
         if len(want) != len(got) or any(abs(a - b) > 1e-9 for a, b in zip(want, got)):
-            fvars = [x for x, _ in form_pairs(f)]
-            trig = any(b[0] == pi.KQSCALAR and b[5] == 1 for b in lit[4])
+            fid, trig = flag_finding(pi, lit)
             ck.fail("d.subs(s).eval() differs from d.eval() with s applied entrywise",
-                    "F11b", trig, [ps], {"form": f, "want": [str(x) for x in want][:8],
+                    fid, trig, [ps], {"form": f, "want": [str(x) for x in want][:8],
                                           "got": [str(x) for x in got][:8]})
     # lambdify route: all symbols bound to Python numbers
     syms, vals = c["lam_all"]
@@ -834,7 +913,7 @@ def eval_oracle(ck, pi, rep, c):
             return
         rep.count("eval-oracle:compared-lambdify")
         if len(want) != len(got) or any(abs(a - b) > 1e-9 for a, b in zip(want, got)):
-            trig = any(b[0] == pi.KQSCALAR and b[5] == 1 for b in lit[4])
+            fid, trig = flag_finding(pi, lit)
             ck.fail("d.lambdify(*xs)(*vs).eval() differs from d.eval() with the values substituted",
-                    "F11b", trig, [pl], {"want": [str(x) for x in want][:8],
+                    fid, trig, [pl], {"want": [str(x) for x in want][:8],
                                           "got": [str(x) for x in got][:8]})
